@@ -5,9 +5,11 @@ from __future__ import annotations
 import hashlib
 import importlib
 import itertools
+import sys
 
 from lib import show_list
 import txlib
+from props import c05_machinery
 from txlib import hx, parse_bytes, parse_fields, show_fields, fields_of, dump_tx, parse_unspents_text, show_unspents
 
 from pycoin.encoding.hash import hash160
@@ -30,8 +32,15 @@ MANIFEST = {
             "one-byte pushes 01 11..01 14 pycoin emits and MINIMALDATA requires; redeem scripts pushed direct / PUSHDATA1 / PUSHDATA2; under P2SH the 520-byte "
             "limit admits exactly n <= 15 compressed or n <= 7 uncompressed keys); any sequence of signing passes on the model leaves min(m, distinct listed "
             "keys supplied) signatures and placeholders otherwise, is accepted exactly when m distinct listed keys were supplied, whatever the order of the "
-            "passes, and a wrong secret leaves the input rejected; nothing but the script and witness of the chosen inputs changes. The symbolic-execution "
-            "machinery of the solver is tied to the model by byte-for-byte equality of what tx.sign writes (RFC 6979 makes signatures deterministic).",
+            "passes, and a wrong secret leaves the input rejected; nothing but the script and witness of the chosen inputs changes. The symbolic "
+            "machinery of the solver is inside the model as well (Model/Constraints.lean, Model/ConstraintSolver.lean: DynamicStack and its atoms x_i / w_i, "
+            "the traceback hook with its stack_size rule and the five symbolic opcodes, the stages of check_solution under the hook, determine_constraints with "
+            "the closing constraints of P2SH / P2WSH, the three registered solver patterns in registration order, the while-progress loop, atoms ordered by number, "
+            "Solver.solve) and connected by theorems: for every standard template (multisig by induction on the key list, every 1 <= m <= n <= 20, the four "
+            "wrappers) the constraint list is the stated one, the solver loop turns it into exactly the items of the result-level model, the machinery's "
+            "scriptSig/witness for a fresh input is the one the consensus specification accepts, an exception Solver.sign swallows leaves the input untouched, "
+            "and the two fuel bounds (fetch loop, solver loop) are never reached. Opcodes outside the mirrored set (any opcode on constants is run through C03's VM "
+            "model; an opcode that would meet an atom otherwise) make the model answer `unsupported`; generated cases stay inside.",
     "note": "The signature hash is computed inside the model by C04's Model/Sighash.lean (the digests pycoin computes are sent along and cross-checked); DER and SEC "
             "encodings are C10's models. Supplied by the harness from pycoin: whether an input already validates under the default flags (C03). ECDSA "
             "unforgeability appears as explicit hypotheses of the _partial theorems: the placeholder signature verifies for no key; a signature made for one "
@@ -40,7 +49,9 @@ MANIFEST = {
     "technique": "Lean 4 proof over an executable model + differential correspondence model vs implementation (exact bytes) + validation oracles on the implementation",
 }
 RULE = ("ops c05_sign_tx (one or several signing passes over a transaction mixing the standard templates), c05_sign_solver, c05_der, c05_lax, c05_sec, "
-        "c05_keychain, c05_who_signed (public_pairs_signed on the transactions the signing ops leave); boundary corpus (every template x key form x hash type x coin, subsets incl. the empty one, m-of-n at the size limits) + seeded random; "
+        "c05_keychain, c05_who_signed (public_pairs_signed on the transactions the signing ops leave), c05_constraints / c05_solve_machinery / c05_sign_machinery "
+        "(the real determine_constraints, Solver.solve, tx.sign against the modelled machinery: constraint lists printed canonically with the digest of each "
+        "sighash closure; every template, m-of-n for every pair up to 20, wrong/missing keys and scripts, non-standard puzzles, inputs carrying stale signatures); boundary corpus (every template x key form x hash type x coin, subsets incl. the empty one, m-of-n at the size limits) + seeded random; "
         "distinct = distinct op line; trivial = ops that sign nothing")
 ASSUMPTIONS = ["the signature hash is C04's model (Model/Sighash.lean); the driver answers DigestMismatch when it differs from what pycoin computed",
                "whether an input is already valid under the default flags is taken from pycoin's validator (tied to consensus by C03)",
@@ -337,6 +348,8 @@ def _atoms(n):
 def impl(op: str) -> str:
     a = op.split(" ")
     k = a[0]
+    if k in c05_machinery.OPS:
+        return c05_machinery.impl(op, sys.modules[__name__])
     try:
         if k == "c05_der":
             return "ok " + hx(der.sigencode_der(int(a[1]), int(a[2])))
@@ -598,6 +611,11 @@ def oracle_sign_tx(op):
 def oracle(op: str, out: str):
     a = op.split(" ")
     k = a[0]
+    if k in c05_machinery.OPS:
+        try:
+            return c05_machinery.oracle(op, out, sys.modules[__name__])
+        except Exception as e:  # noqa: BLE001
+            return "oracle crashed: %r" % (e,)
     if k == "c05_sign_tx":
         try:
             return oracle_sign_tx(op)
@@ -1049,6 +1067,7 @@ def gen(ctx, emit):
     gen_der(ctx, emit, ctx.n(60, 3000))
     gen_sign_solver(ctx, emit, ctx.n(200, 4000))
     gen_keychain(ctx, emit, ctx.n(20, 600))
+    c05_machinery.gen(ctx, emit, sys.modules[__name__], pool)
 
     # --- boundary corpus: every template x coin, default hash type, all inputs
     for coin in COINS_MAIN:
